@@ -6,6 +6,7 @@ import (
 	"go/ast"
 	"go/parser"
 	"go/token"
+	"go/types"
 	"path/filepath"
 	"strings"
 )
@@ -26,6 +27,10 @@ import (
 // ends the function.  Function-literal arguments are inlined where the callee calls them or hands
 // them to self.db.View/Update/Batch.  Calls on other receivers (the second DbImpl opened by
 // MarkAsSnapshot) are not followed: they use another lock.
+//
+// Also written: the field list of `type DbImpl struct` (name, type) — the state a DbImpl carries between
+// calls (and the package-level variables of db.go).  The model's `Sys` accounts for exactly these (handle, lock, listener slices); a new field (a
+// cache of something read from the file, say) is state the model does not have.
 //
 // Output: lean/StorageModel/Generated/DbLocks.lean and facts/dblocks.json.
 type dbLockWalker struct {
@@ -289,10 +294,39 @@ func extractDbLocks(repo, gen, facts string) {
 	file, err := parser.ParseFile(fset, filepath.Join(repo, "boltz", "db.go"), nil, 0)
 	w := &dbLockWalker{methods: map[string]*ast.FuncDecl{}, recv: map[string]string{}}
 	res := map[string][]string{}
+	var fields [][2]string
+	pkgVars := []string{}
 	if err != nil {
 		w.note = append(w.note, "parse error: "+err.Error())
 	} else {
 		for _, d := range file.Decls {
+			if gd, ok := d.(*ast.GenDecl); ok {
+				for _, sp := range gd.Specs {
+					if vs, ok := sp.(*ast.ValueSpec); ok && gd.Tok == token.VAR {
+						for _, n := range vs.Names {
+							pkgVars = append(pkgVars, n.Name)
+						}
+					}
+					ts, ok := sp.(*ast.TypeSpec)
+					if !ok || ts.Name.Name != "DbImpl" {
+						continue
+					}
+					st, ok := ts.Type.(*ast.StructType)
+					if !ok {
+						w.note = append(w.note, "DbImpl is not a struct")
+						continue
+					}
+					for _, fl := range st.Fields.List {
+						ty := types.ExprString(fl.Type)
+						if len(fl.Names) == 0 {
+							fields = append(fields, [2]string{"", ty}) // embedded
+						}
+						for _, n := range fl.Names {
+							fields = append(fields, [2]string{n.Name, ty})
+						}
+					}
+				}
+			}
 			fd, ok := d.(*ast.FuncDecl)
 			if !ok || fd.Recv == nil || len(fd.Recv.List) != 1 || fd.Body == nil {
 				continue
@@ -325,9 +359,11 @@ func extractDbLocks(repo, gen, facts string) {
 	}
 	type fact struct {
 		Programs map[string][]string `json:"programs"`
+		Fields   [][2]string         `json:"dbimpl_fields"`
+		PkgVars  []string            `json:"db_go_package_vars"`
 		Notes    []string            `json:"notes,omitempty"`
 	}
-	js, _ := json.MarshalIndent(fact{res, w.note}, "", " ")
+	js, _ := json.MarshalIndent(fact{res, fields, pkgVars, w.note}, "", " ")
 	writeIfChanged(filepath.Join(facts, "dblocks.json"), string(js)+"\n")
 
 	var b strings.Builder
@@ -350,6 +386,22 @@ func extractDbLocks(repo, gen, facts string) {
 			parts = append(parts, "."+e)
 		}
 		fmt.Fprintf(&b, "  (%q, [%s])", name, strings.Join(parts, ", "))
+	}
+	b.WriteString("]\n")
+	b.WriteString("/-- the fields of `type DbImpl struct` (name, type) -/\n")
+	b.WriteString("def dbImplFields : List (String × String) := [")
+	for i, f := range fields {
+		if i > 0 {
+			b.WriteString(", ")
+		}
+		fmt.Fprintf(&b, "(%q, %q)", f[0], f[1])
+	}
+	b.WriteString("]\n/-- package-level variables declared in boltz/db.go -/\ndef dbGoPackageVars : List String := [")
+	for i, v := range pkgVars {
+		if i > 0 {
+			b.WriteString(", ")
+		}
+		fmt.Fprintf(&b, "%q", v)
 	}
 	b.WriteString("]\nend StorageModel.Generated\n")
 	writeIfChanged(filepath.Join(gen, "DbLocks.lean"), b.String())
